@@ -213,12 +213,15 @@ def replay_file(path: str, quiet=False) -> int:
     print(f"REPLAY oracle={v.oracle_id} facts={json.dumps(v.facts, sort_keys=True)}")
     print(f"REPLAY msg={v.msg}")
     print(f"REPLAY digest={ctx.digest()}")
+    if body.get("digest"):
+        print("REPLAY digest-matches-recorded=" + str(body["digest"] == ctx.digest()).lower())
     print(f"VIOLATION property={prop} replay={path}")
     return 1
 
 
 def _verify_fresh(prop, path, oracle_id) -> bool:
-    """Replay in a fresh interpreter; must fail with the same oracle."""
+    """Replay in a fresh interpreter; must fail with the same oracle.  The event-log digest of that fresh
+    execution is recorded in the replay file so that later replays can show they are bit-identical."""
     try:
         r = subprocess.run(
             [os.path.join(VERIF, "check"), prop, "--replay", path],
@@ -226,7 +229,18 @@ def _verify_fresh(prop, path, oracle_id) -> bool:
         )
     except Exception:
         return False
-    return r.returncode == 1 and f"REPLAY oracle={oracle_id} " in r.stdout
+    ok = r.returncode == 1 and f"REPLAY oracle={oracle_id} " in r.stdout
+    if ok:
+        for line in r.stdout.splitlines():
+            if line.startswith("REPLAY digest="):
+                try:
+                    body = json.load(open(path))
+                    body["digest"] = line.split("=", 1)[1].strip()
+                    with open(path, "w") as f:
+                        json.dump(body, f, indent=1)
+                except Exception:
+                    pass
+    return ok
 
 
 # --------------------------------------------------------------------------- batch
